@@ -139,7 +139,8 @@ def worker(sh):
             msg = rng.getrandbits(256)
             for mode in (0, 1):
                 sid = sc.newsig()
-                sc.add('sign %d %d 0 %s %s %d %d %s' % (sid, kid, alist(ext), wkd.idhex(msg), sc.seed(), mode, alist(ext)), 'sign', mode=mode)
+                fl_s = {i for i, v in ext if rng.random() < 0.5}
+                sc.add('sign %d %d 0 %s %s %d %d %s' % (sid, kid, alist(ext, False, None, fl_s), wkd.idhex(msg), sc.seed(), mode, alist(ext)), 'sign', mode=mode)
                 sc.add('verify %d 0 %s %s' % (sid, alist(ext), wkd.idhex(msg)), 'verify', expect=1, mode=mode)
     outs = session.run_all(sh, sh.payload['cfgs'], sc.lines)
     sh.count('scheme_ops_with_crafted_random_streams', getattr(sc, 'nstream', 0))
